@@ -25,6 +25,12 @@ class T:
             r = r @ o
         return r
 
+    def then(self, *others):            # a.then(b, c) is a >> b >> c (monoidal.Diagram.then folds left)
+        r = self
+        for o in others:
+            r = r >> o
+        return r
+
 
 class ArityError(Exception):
     pass
